@@ -12,7 +12,10 @@ ConversionPairs == {"to_DCM", "conjugate", "to_angles", "from_rpy", "q2R.v1", "q
                     "rpy2q", "q_conj", "q_norm",
                     "from_angles", "from_DCM.inplace", "is_pure", "is_real", "is_versor", "is_identity",
                     \* the same operations on data stored scalar-last (constructor option order='S' on both paths)
-                    "conjugate[S]", "to_DCM[S]", "to_angles[S]", "is_identity[S]", "is_pure[S]"}
+                    "conjugate[S]", "to_DCM[S]", "to_angles[S]", "is_identity[S]", "is_pure[S]",
+                    \* objects that keep the data as given (versor=False / versors=False on both paths)
+                    "is_versor[as given]", "to_DCM[as given]", "conjugate[as given]"}
+AsGivenPairs == {"is_versor[as given]", "to_DCM[as given]", "conjugate[as given]"}
 MethodPairs     == {"from_DCM.shepperd", "from_DCM.hughes", "from_DCM.chiaverini", "from_DCM.sarabandi",
                     "from_DCM.itzhack1", "from_DCM.itzhack2", "from_DCM.itzhack3", "hughes", "chiaverini"}
 MetricPairs     == {"qdist", "qeip", "qcip", "qad", "chordal", "euclidean", "rmse", "rmse_matrices"}
@@ -26,15 +29,18 @@ TwinPairs == ConversionPairs \cup MethodPairs \cup MetricPairs \cup EstimatorPai
 
 (* the form the caller's data are in: float arrays of unit-scale values, integer-dtype arrays (raw sensor counts,
    integer-valued quaternions), or non-normalised (scaled) quaternions / measurements *)
-Forms == {"float", "int-dtype", "scaled"}
-RowClasses == {"generic-a", "generic-b", "half-turn", "near-identity", "identity", "near-half-turn"}
+(* "near-unit": unit rows whose norm has drifted by a few parts per million (inside the tolerance of the versor test) *)
+Forms == {"float", "int-dtype", "scaled", "near-unit"}
+(* "conjugated" / "mirrored": for the two-operand (metric) pairs, the second operand is the conjugate of the first / the first with the
+   sign of one component flipped (equal magnitudes component by component, another rotation); one more generic row for the others *)
+RowClasses == {"generic-a", "generic-b", "half-turn", "near-identity", "identity", "near-half-turn", "conjugated", "mirrored"}
 Ns == {1, 2, 5}
 
 CONSTANTS Pairs, Classes
 VARIABLES op, arr, res, phase
 vars == <<op, arr, res, phase>>
 
-Special == {"half-turn", "near-identity", "identity", "near-half-turn"}
+Special == {"half-turn", "near-identity", "identity", "near-half-turn", "conjugated", "mirrored"}
 (* arrangements: special rows first, in the middle and last; all-generic; all-special *)
 Arrangements == UNION { { a \in [1..n -> Classes] :
                             \/ n = 1
